@@ -106,8 +106,11 @@ UTTERS: Dict[str, Optional[str]] = {
     "nbsp": "\u00a0\u00a0",
     "emoji": "ok \U0001F44D\U0001F3FD fine",
     "nl": "line1\nline2\r\nline3",
+    # tokens with INNER punctuation: one raw whitespace token may become several tokens once punctuation is normalised,
+    # so a clamp that counts tokens before normalising lets the summary exceed the limit
+    "inner": "state-of-the-art don't a/b http://x.y/z 2020-01-01 it's_ok",
 }
-TURN_UTTERS = ["real", "empty", "hi", "uni", "ws", "punct", "long"]
+TURN_UTTERS = ["real", "empty", "hi", "uni", "ws", "punct", "long", "inner"]
 _LONG_SNIP = " ".join("s%d" % i for i in range(60))
 SNIPS: Dict[str, Optional[list]] = {
     "none": None,                      # no ctx.turn_artifacts at all
@@ -748,7 +751,7 @@ def enumerate_turn_cases(thorough: bool, seed: int) -> Dict[str, List[dict]]:
         embeds = (True, False)
         ats = (("A", 1), ("B", 2))
     else:
-        utters = ["real", "hi", "ws", "long", "punct"]
+        utters = ["real", "hi", "ws", "long", "punct", "inner"]
         wsn = [("W0", "one"), ("W0", "mixed"), ("W1", "none")]
         tokens = (0, 1, 2, 128)
         caps = (0, 1, 5)
